@@ -203,3 +203,83 @@ fn c12_fixture_box_maps() {
     println!("VERIF-B-SAMPLE violation classes this run: {:?}", counts);
     println!("VERIF-B unit=png_io test=c12_fixture_box_maps evaluations={evals} nontrivial={nontrivial} exhaustive=false domain=fixture files CA.jpg C.jpg sample1.gif libpng-test.png sample1.jxl x {{as is, +1 byte, +16 bytes}}");
 }
+
+
+// JPEG XL container grammar: signature box, ftyp, then up to 3 boxes of 8 types with 0..=2 payload bytes (the last one
+// optionally with size 0 = "to the end of the file"), 0..=2 trailing bytes; same contract as for PNG
+#[test]
+fn c12_jxl_box_map_small_grammar() {
+    use crate::jumbf_io::get_assetio_handler;
+    let Some(h) = get_assetio_handler("jxl") else { return };
+    let Some(bh) = h.asset_box_hash_ref() else { return };
+    let types: [&[u8; 4]; 8] = [b"jxll", b"jxlc", b"jxlp", b"Exif", b"xml ", b"jumb", b"brob", b"free"];
+    let mk = |ty: &[u8; 4], payload: usize, to_eof: bool| -> Vec<u8> {
+        let mut v = Vec::new();
+        v.extend_from_slice(&(if to_eof { 0u32 } else { 8 + payload as u32 }).to_be_bytes());
+        v.extend_from_slice(ty);
+        v.extend(std::iter::repeat(0x11u8).take(payload));
+        v
+    };
+    let mut evals = 0usize;
+    let mut nontrivial = 0usize;
+    let mut counts: std::collections::BTreeMap<String, usize> = std::collections::BTreeMap::new();
+    let mut seqs: Vec<Vec<(usize, usize)>> = vec![vec![]];
+    for _ in 0..3 {
+        let mut next = Vec::new();
+        for s in &seqs {
+            for t in 0..types.len() {
+                for pl in 0..=2usize {
+                    let mut s2 = s.clone();
+                    s2.push((t, pl));
+                    next.push(s2);
+                }
+            }
+        }
+        seqs.extend(next);
+        seqs.sort();
+        seqs.dedup();
+    }
+    for s in &seqs {
+        for last_to_eof in [false, true] {
+            if last_to_eof && s.is_empty() {
+                continue;
+            }
+            for trailing in 0..=2usize {
+                if last_to_eof && trailing > 0 {
+                    continue;
+                }
+                let mut f: Vec<u8> = vec![0x00, 0x00, 0x00, 0x0c, 0x4a, 0x58, 0x4c, 0x20, 0x0d, 0x0a, 0x87, 0x0a];
+                f.extend_from_slice(&20u32.to_be_bytes());
+                f.extend_from_slice(b"ftypjxl \0\0\0\0jxl ");
+                for (i, (t, pl)) in s.iter().enumerate() {
+                    f.extend(mk(types[*t], *pl, last_to_eof && i + 1 == s.len()));
+                }
+                f.extend(std::iter::repeat(0x55u8).take(trailing));
+                evals += 1;
+                let mut cur = Cursor::new(f.clone());
+                let got = std::panic::catch_unwind(std::panic::AssertUnwindSafe(|| bh.get_box_map(&mut cur)));
+                let key: Option<String> = match got {
+                    Err(_) => Some("box_map.jxl.panic".to_string()),
+                    Ok(Err(_)) => None,
+                    Ok(Ok(boxes)) => {
+                        nontrivial += 1;
+                        match box_map_contract(&boxes, f.len() as u64) {
+                            Ok(()) => None,
+                            Err(c) if s.is_empty() => Some(format!("box_map.jxl.{c}.ftyp_is_last_box")),
+                            Err(c) => Some(format!("box_map.jxl.{c}")),
+                        }
+                    }
+                };
+                if let Some(k) = key {
+                    let c = counts.entry(k.clone()).or_insert(0);
+                    *c += 1;
+                    if *c <= 3 {
+                        println!("VERIF-B-VIOLATION key={k} input=boxes after ftyp={:?} last_to_eof={last_to_eof} trailing={trailing}", s.iter().map(|(t, pl)| (String::from_utf8_lossy(types[*t]).to_string(), *pl)).collect::<Vec<_>>());
+                    }
+                }
+            }
+        }
+    }
+    println!("VERIF-B-SAMPLE violation classes this run: {:?}", counts);
+    println!("VERIF-B unit=png_io test=c12_jxl_box_map_small_grammar evaluations={evals} nontrivial={nontrivial} exhaustive=true domain=JPEG XL signature + ftyp + 0..=3 boxes over {{jxll,jxlc,jxlp,Exif,xml ,jumb,brob,free}} with 0..=2 payload bytes, last box optionally open-ended, 0..=2 trailing bytes");
+}
